@@ -12,6 +12,21 @@ COMMON_NOTE = ("Trusted base: clang 14's parser/Sema/record layout/CFG, the op2f
                "source, not that the behaviour was observed. ")
 
 CLAIMED = {
+    "C04": {
+        "rules": "R-CURSOR(mask form), R-INIT, R-ACCT, R-LAYOUT(format constants and distance classes), R-INDEX, R-MUSTCALL, R-ATOMIC, R-ORDER, R-SEQ",
+        "text": "Static analysis of the LZH decoder's structural clauses only: every store to the window write index and to "
+                "each match-source index is masked with extent-1 (so every window store / match read is in the 4096-byte "
+                "window); the whole window is space-filled by the constructor; fill threshold + longest match fits below the "
+                "window size; symbol count, match base and the six distance classes (boundaries, extra bits, upper-bit "
+                "formulas, read from the AST) equal the format description; every fetch from the compressed buffer is "
+                "dominated by the end-of-stream refusal; the tree's capacity refusal dominates its first store and the "
+                "update precedes the code's output; volume extraction writes exactly the (pointer, length) pairs of the "
+                "internal-buffer interface until 0. The decoder's output is NOT examined: equality with a reference decoder "
+                "and drain-schedule equivalence are declined.",
+        "note": "Declined: output equality with a reference, drain-schedule equivalence, read-side window bounds (relational), "
+                "termination of the tree walk, the encoder round-trip clause.",
+        "design": "4/C04",
+    },
     "C05": {
         "rules": "R-INDEX with derived class invariants, R-MUSTCALL, R-GUARD, R-TAINT(raw extents, loop progress), R-COPYEXT, R-FSTREAM, R-NOWRAP",
         "text": "Static analysis of VolFile/ClmFile and the WAV intake: every table subscript reachable from a public entry "
